@@ -67,6 +67,24 @@ theorem xml_text_determines_vertices (g1 g2 : G Label Hex) (h1 : SafeLabels g1) 
     (he : toXml g1 = toXml g2) (n : Nat) : (n < cap g1 ∧ tag g1 n ≠ 0) ↔ (n < cap g2 ∧ tag g2 n ≠ 0) := by
   rw [← nodes_are_present_vertices, ← nodes_are_present_vertices, xml_text_determines_document g1 g2 h1 h2 he]
 
+/-- **the DOT text reads back as the document** too -/
+theorem dot_reads_back (g : G Label Hex) (h : SafeLabels g) : readDot (toDot g).toList = some (exportDoc g) := by
+  unfold toDot renderDot
+  rw [String.toList_ofList]
+  exact readDot_dotChars _ (safe_doc g h)
+
+/-- … and determines it -/
+theorem dot_text_determines_document (g1 g2 : G Label Hex) (h1 : SafeLabels g1) (h2 : SafeLabels g2)
+    (he : toDot g1 = toDot g2) : exportDoc g1 = exportDoc g2 := by
+  have a := dot_reads_back g1 h1
+  have b := dot_reads_back g2 h2
+  rw [he, b] at a
+  exact (Option.some.inj a).symm
+
+/-- the two exports of a graph say the same thing: what one reader finds in the XML, the other finds in the DOT text -/
+theorem xml_and_dot_agree (g : G Label Hex) (h : SafeLabels g) : readXml (toXml g).toList = readDot (toDot g).toList := by
+  rw [xml_reads_back g h, dot_reads_back g h]
+
 /-! non-vacuity: the three kinds of label are safe labels; a concrete document reads back (kernel-evaluated) -/
 example : SafeLabel (.alpha 3) := ⟨.alpha 3 (by decide), by decide, by decide⟩
 example : SafeLabel (.greek 'ρ') := ⟨.greek 'ρ' (by decide) (by decide), by decide, by decide⟩
